@@ -94,6 +94,11 @@ EMPHASIS = {
 }
 
 
+EMPHASIS['9'] = EMPHASIS['8'] + (' (A previous round already worked under this rule; the list below includes its edits, '
+                                    'so what is left are the less obvious places - look harder, including the other '
+                                    'modules the anchored code imports from.)')
+
+
 def touched_functions(pid):
     """Function / class names that appear in the hunk headers of the earlier patches of a property."""
     names = {}
@@ -148,7 +153,7 @@ def main():
             what = re.sub(r'^#\s*', '', m.get('what', ''))
             earlier.append('- %s: %s  %s' % (', '.join(m.get('files_changed', [])), what, notes))
         emphasis = EMPHASIS.get(rnd, EMPHASIS['default'])
-        if rnd == '8':
+        if rnd in ('8', '9'):
             tf = touched_functions(pid)
             emphasis += ' Already edited: ' + '; '.join(
                 '%s: %s' % (f, ', '.join(sorted(v))) for f, v in sorted(tf.items())) + '.'
